@@ -91,6 +91,38 @@ func (s *decScope) ruleConsume(rule string) {
 				}
 				return good[callee]
 			}
+			// a call through a local that holds one of several method values
+			// (readNext := s.readASCII; if binary { readNext = s.readBinary }):
+			// consuming iff every candidate is
+			if phi, ok := call.Call.Value.(*ssa.Phi); ok {
+				all := len(phi.Edges) > 0
+				for _, e := range phi.Edges {
+					mc, ok := e.(*ssa.MakeClosure)
+					if !ok {
+						all = false
+						break
+					}
+					bound, _ := mc.Fn.(*ssa.Function)
+					if bound == nil {
+						all = false
+						break
+					}
+					target := bound
+					if m, ok := bound.Object().(*types.Func); ok && bound.Synthetic != "" {
+						if t := c.Prog.FuncValue(m); t != nil {
+							target = t
+						}
+					}
+					if o := target.Origin(); o != nil {
+						target = o
+					}
+					if !good[target] {
+						all = false
+						break
+					}
+				}
+				return all
+			}
 			return false
 		}
 		// reachability over (block, position) avoiding consuming instructions
